@@ -119,6 +119,7 @@ Theorem C18_model_is_checker : forall (g : graph) (q : query), wf g ->
   | QAnc a d _ => d < length g /\ a < length g
   | QHeads c _ => forall x, In x c -> x < length g
   | QCommon s1 s2 _ => (forall x, In x s1 -> x < length g) /\ (forall x, In x s2 -> x < length g)
+  | QHeadsRange _ _ _ _ _ _ => False
   | _ => True
   end ->
   query_corr g q = query_ok g q.
